@@ -31,11 +31,20 @@
 // an entry sends is remembered from the last time its job was run alone, or asked at the
 // end of the case).  Stop calls sm.Stop() (context cancelled); jobs run after it are driven
 // with bounded receives.
+//
+// Two case classes share the operations, the observations and this driver loop (rig.run):
+// Input.Via == "" builds the controllers by hand as described above (ctlRig, Coq class CCtl);
+// Input.Via == "operator" (file operator.go, Coq class COp) assembles the REAL operator around a
+// fake cluster: hook files loaded by hook.Manager.Init, Enable = the hook's queued
+// EnableScheduleBindings task handled by the operator's task handler, and every string handled
+// is also given to the schedule event handler the operator registered (operator.go:163-191 ->
+// hook.Manager.HandleScheduleEvent): the TASKS it returns are part of the observation.
 package c11
 
 import (
 	"context"
 	"fmt"
+	"reflect"
 	"sort"
 	"strconv"
 	"strings"
@@ -72,9 +81,25 @@ type Op struct {
 }
 
 type Input struct {
+	// Via: "" = real ScheduleBindingsControllers driven directly (case class CCtl);
+	// "operator" = the real operator assembled around a fake cluster, hooks loaded from files,
+	// firings handled by the operator's schedule event handler (case class COp, operator.go)
+	Via     string      `json:"via,omitempty"`
 	Strings []string    `json:"strings"` // the case's crontab strings
 	Hooks   [][]Binding `json:"hooks"`
 	Ops     []Op        `json:"ops"`
+}
+
+// TaskObs: a task returned by the operator's schedule event handler
+type TaskObs struct {
+	Hook     int   `json:"hook"` // position of the hook (hooks are numbered in the order of their paths)
+	Queue    int   `json:"queue"`
+	Binding  int   `json:"binding"`
+	Group    int   `json:"group"`
+	AF       bool  `json:"af"`
+	CtxName  int   `json:"ctx_name"`
+	CtxSnaps []int `json:"ctx_snaps"`
+	CtxGroup int   `json:"ctx_group"`
 }
 
 type EntryObs struct {
@@ -107,15 +132,17 @@ type Obs struct {
 	Entries []EntryObs `json:"entries"`
 	Cron    []CronObs  `json:"cron"`
 	Fire    []FireObs  `json:"fire"`
-	Recv    []int      `json:"recv"`     // Tick/TickAll/Drain: what the consumer received (alphabet indices, sorted)
-	RecvStr []string   `json:"recv_str"` // the same as strings, in the order of arrival
-	ChLen   int        `json:"ch_len"`   // len(sm.Ch()) after the operation
-	Parked  int        `json:"parked"`   // job goroutines started and not returned (parked in their send)
+	Recv    []int      `json:"recv"`            // Tick/TickAll/Drain: what the consumer received (alphabet indices, sorted)
+	RecvStr []string   `json:"recv_str"`        // the same as strings, in the order of arrival
+	ChLen   int        `json:"ch_len"`          // len(sm.Ch()) after the operation
+	Parked  int        `json:"parked"`          // job goroutines started and not returned (parked in their send)
+	Tasks   []TaskObs  `json:"tasks,omitempty"` // operator class: the tasks made of the strings handled by this operation
 }
 type Observation struct {
 	Steps   []Obs    `json:"steps"`
-	Extra   []string `json:"extra"`   // strings seen in the implementation that are not in Input.Strings
-	Invalid []int    `json:"invalid"` // indices (alphabet) of the strings the real cron.Parse rejects
+	Extra   []string `json:"extra"`         // strings seen in the implementation that are not in Input.Strings
+	Invalid []int    `json:"invalid"`       // indices (alphabet) of the strings the real cron.Parse rejects
+	Err     string   `json:"err,omitempty"` // operator class: the rig could not be built (counts as a crash)
 }
 
 const anomaly = 999999
@@ -196,19 +223,68 @@ type rawStep struct {
 	recv    []string
 	chlen   int
 	parked  int
+	tasks   []TaskObs
+}
+
+// smAPI: what the driver uses of the real *scheduleManager (an unexported type)
+type smAPI interface {
+	Add(smtypes.ScheduleEntry)
+	Remove(smtypes.ScheduleEntry)
+	Ch() chan string
+	Stop()
+	VerifC11Snapshot() ([]schedulemanager.VerifC11Entry, []schedulemanager.VerifC11CronEntry)
+}
+
+// entriesOf reads the exported field Entries of the manager
+func entriesOf(sm smAPI) map[string]schedulemanager.CronEntry {
+	v := reflect.ValueOf(sm)
+	if v.Kind() == reflect.Ptr {
+		v = v.Elem()
+	}
+	m, ok := v.FieldByName("Entries").Interface().(map[string]schedulemanager.CronEntry)
+	if !ok {
+		panic("c11 harness: the schedule manager has no field Entries map[string]CronEntry")
+	}
+	return m
+}
+
+// rig: the real code one case is run against
+type rig struct {
+	sm       smAPI
+	nHooks   int
+	enable   func(h int)
+	disable  func(h int)
+	can      func(h int, crontab string) bool
+	handle   func(h int, crontab string) []controller.BindingExecutionInfo
+	tasks    func(crontab string) []TaskObs // nil: no operator (class CCtl)
+	idStr    func(i int) string             // the id string of the model's id i
+	idNum    func(s string) int
+	queueNum func(s string) int
+	cleanup  func()
 }
 
 const nothingSent = "<the job sent nothing>"
 
 func Run(in Input) Observation {
+	if in.Via == "operator" {
+		r, err := operatorRig(in)
+		if r != nil && r.cleanup != nil {
+			defer r.cleanup()
+		}
+		if err != nil {
+			return Observation{Steps: []Obs{}, Extra: []string{}, Invalid: []int{}, Err: err.Error()}
+		}
+		return r.run(in)
+	}
+	return ctlRig(in).run(in)
+}
+
+// ctlRig: real ScheduleBindingsControllers sharing one real scheduleManager
+func ctlRig(in Input) *rig {
 	entry := func(c, i int) smtypes.ScheduleEntry {
 		return smtypes.ScheduleEntry{Crontab: in.str(c), Id: strconv.Itoa(i)}
 	}
 	sm := schedulemanager.NewScheduleManager(context.Background(), log.NewNop())
-	cr := cronOf(sm)
-	ch := sm.Ch()
-	js := newJobSet()
-	stopped := false
 	type ctl = controller.ScheduleBindingsController
 	var ctls []ctl
 	for _, bs := range in.Hooks {
@@ -229,11 +305,40 @@ func Run(in Input) Observation {
 		c.WithScheduleManager(sm)
 		ctls = append(ctls, c)
 	}
+	return &rig{
+		sm: sm, nHooks: len(ctls),
+		enable:  func(h int) { ctls[h].EnableScheduleBindings() },
+		disable: func(h int) { ctls[h].DisableScheduleBindings() },
+		can:     func(h int, crontab string) bool { return ctls[h].CanHandleEvent(crontab) },
+		handle: func(h int, crontab string) []controller.BindingExecutionInfo {
+			return ctls[h].HandleEvent(crontab)
+		},
+		idStr: strconv.Itoa,
+		idNum: func(s string) int {
+			n, err := strconv.Atoi(s)
+			if err != nil {
+				return anomaly
+			}
+			return n
+		},
+		queueNum: func(s string) int { return unname("q", s) },
+	}
+}
+
+func (r *rig) run(in Input) Observation {
+	entry := func(c, i int) smtypes.ScheduleEntry {
+		return smtypes.ScheduleEntry{Crontab: in.str(c), Id: r.idStr(i)}
+	}
+	sm := r.sm
+	cr := cronOf(sm)
+	ch := sm.Ch()
+	js := newJobSet()
+	stopped := false
 	infosOf := func(infos []controller.BindingExecutionInfo) []InfoObs {
 		res := []InfoObs{}
 		for _, info := range infos {
 			io := InfoObs{Name: unname("b", info.Binding), Group: unname("g", info.Group), AF: info.AllowFailure,
-				Snaps: unnames("s", info.IncludeSnapshots), Queue: unname("q", info.QueueName),
+				Snaps: unnames("s", info.IncludeSnapshots), Queue: r.queueNum(info.QueueName),
 				BcName: anomaly, BcSnaps: []int{}}
 			if len(info.BindingContext) == 1 && !info.IncludeAllSnapshots {
 				bc := info.BindingContext[0]
@@ -250,17 +355,22 @@ func Run(in Input) Observation {
 	stable := func(f *FireObs) {
 		sort.SliceStable(f.Infos, func(i, j int) bool { return fmt.Sprint(f.Infos[i]) < fmt.Sprint(f.Infos[j]) })
 	}
-	// hook.Manager.HandleScheduleEvent(crontab): every hook whose controller can handle it
+	// hook.Manager.HandleScheduleEvent(crontab): every hook whose controller can handle it;
+	// operator class: the string also goes to the operator's schedule event handler
+	var cur *rawStep
 	dispatch := func(crontab string, fire []FireObs) {
-		for h, c := range ctls {
-			if c.CanHandleEvent(crontab) {
+		for h := 0; h < r.nHooks; h++ {
+			if r.can(h, crontab) {
 				fire[h].Can = true
-				fire[h].Infos = append(fire[h].Infos, infosOf(c.HandleEvent(crontab))...)
+				fire[h].Infos = append(fire[h].Infos, infosOf(r.handle(h, crontab))...)
 			}
+		}
+		if r.tasks != nil {
+			cur.tasks = append(cur.tasks, r.tasks(crontab)...)
 		}
 	}
 	blank := func() []FireObs {
-		fire := make([]FireObs, len(ctls))
+		fire := make([]FireObs, r.nHooks)
 		for h := range fire {
 			fire[h].Infos = []InfoObs{}
 		}
@@ -300,8 +410,8 @@ func Run(in Input) Observation {
 			return ents, rows
 		}
 		// firings are waiting (or the context is cancelled): look without running a job
-		ents := make([]schedulemanager.VerifC11Entry, 0, len(sm.Entries))
-		for crontab, e := range sm.Entries {
+		ents := make([]schedulemanager.VerifC11Entry, 0, len(entriesOf(sm)))
+		for crontab, e := range entriesOf(sm) {
 			ids := make([]string, 0, len(e.Ids))
 			for id := range e.Ids {
 				ids = append(ids, id)
@@ -361,6 +471,7 @@ func Run(in Input) Observation {
 	var raw []rawStep
 	for _, op := range in.Ops {
 		st := rawStep{fire: []FireObs{}, recv: []string{}}
+		cur = &st
 		unsettled := 0
 		switch op.Kind {
 		case "Add":
@@ -368,17 +479,20 @@ func Run(in Input) Observation {
 		case "Remove":
 			sm.Remove(entry(op.C, op.I))
 		case "Enable":
-			if op.H >= 0 && op.H < len(ctls) {
-				ctls[op.H].EnableScheduleBindings()
+			if op.H >= 0 && op.H < r.nHooks {
+				r.enable(op.H)
 			}
 		case "Disable":
-			if op.H >= 0 && op.H < len(ctls) {
-				ctls[op.H].DisableScheduleBindings()
+			if op.H >= 0 && op.H < r.nHooks {
+				r.disable(op.H)
 			}
 		case "Fire":
-			for _, c := range ctls {
-				f := FireObs{Can: c.CanHandleEvent(in.str(op.C)), Infos: infosOf(c.HandleEvent(in.str(op.C)))}
+			for h := 0; h < r.nHooks; h++ {
+				f := FireObs{Can: r.can(h, in.str(op.C)), Infos: infosOf(r.handle(h, in.str(op.C)))}
 				st.fire = append(st.fire, f)
+			}
+			if r.tasks != nil {
+				st.tasks = append(st.tasks, r.tasks(in.str(op.C))...)
 			}
 		case "Tick":
 			// (the consumer first catches up with firings that still wait;) the job of the n-th
@@ -414,6 +528,9 @@ func Run(in Input) Observation {
 		}
 		for h := range st.fire {
 			stable(&st.fire[h])
+		}
+		if r.tasks != nil && st.tasks == nil {
+			st.tasks = []TaskObs{}
 		}
 		st.chlen, st.parked = len(ch), js.outstanding()
 		if unsettled > 0 { // a started job neither returned nor parked in a send
@@ -483,7 +600,7 @@ func Run(in Input) Observation {
 		}
 	}
 	for _, st := range raw {
-		o := Obs{Entries: []EntryObs{}, Cron: []CronObs{}, Fire: st.fire, Recv: []int{}, RecvStr: st.recv, ChLen: st.chlen, Parked: st.parked}
+		o := Obs{Entries: []EntryObs{}, Cron: []CronObs{}, Fire: st.fire, Recv: []int{}, RecvStr: st.recv, ChLen: st.chlen, Parked: st.parked, Tasks: st.tasks}
 		for c, s := range alphabet {
 			eo := EntryObs{C: c, Ids: []int{}}
 			for _, e := range st.entries {
@@ -491,11 +608,7 @@ func Run(in Input) Observation {
 					eo.Present = true
 					eo.EntryID = e.EntryID
 					for _, id := range e.Ids {
-						n, err := strconv.Atoi(id)
-						if err != nil {
-							n = anomaly
-						}
-						eo.Ids = append(eo.Ids, n)
+						eo.Ids = append(eo.Ids, r.idNum(id))
 					}
 					sort.Ints(eo.Ids)
 				}
@@ -567,6 +680,9 @@ func coqObs(o Obs) string {
 	})
 	return fmt.Sprintf("mkObs %s %s %s %s %d %d", ents, cr, fi, core.CoqList(o.Recv, sname), o.ChLen, o.Parked)
 }
+func coqHobs(o Obs) string {
+	return fmt.Sprintf("mkHobs (%s) %s", coqObs(o), core.CoqList(o.Tasks, coqTask))
+}
 
 // every index a case refers to must have a name bound by the lets
 func maxIndex(in Input) int {
@@ -617,9 +733,16 @@ func Render(in Input, obs *Observation, crash string) core.Case {
 		}
 		fmt.Fprintf(&lets, "let %s := %s in ", sname(i), lit)
 	}
-	c.Coq = fmt.Sprintf("(%s\n (%s,\n  %s))", lets.String(), coqInput(in, alphabet, invalid), core.CoqList(steps, coqObs))
+	if in.Via == "operator" {
+		if obs != nil && obs.Err != "" && crash == "" {
+			crash = "rig: " + obs.Err
+		}
+		c.Coq = fmt.Sprintf("(COp (%s\n (%s,\n  %s)))", lets.String(), coqInput(in, alphabet, invalid), core.CoqList(steps, coqHobs))
+	} else {
+		c.Coq = fmt.Sprintf("(CCtl (%s\n (%s,\n  %s)))", lets.String(), coqInput(in, alphabet, invalid), core.CoqList(steps, coqObs))
+	}
 	c.JSON = map[string]any{"steps": steps, "alphabet": alphabet, "invalid": invalid, "crash": crash}
-	c.Key = fmt.Sprintf("%q %s", in.Strings, coqInput(in, in.Strings, nil))
+	c.Key = fmt.Sprintf("%s %q %s", in.Via, in.Strings, coqInput(in, in.Strings, nil))
 
 	// which strings does the case use, and how are they spelled
 	used := map[int]bool{}
@@ -722,6 +845,7 @@ func Render(in Input, obs *Observation, crash string) core.Case {
 	}
 	c.Tags = append(c.Tags, fmt.Sprintf("max-cron-entries:%d", maxCron))
 	c.Tags = append(c.Tags, concurrencyTags(in, steps)...)
+	c.Tags = append(c.Tags, operatorTags(in, steps)...)
 	if hadInfos {
 		c.Tags = append(c.Tags, "firing-with-tasks")
 	}
@@ -1178,21 +1302,52 @@ func Gen(r *core.Rng, tier string) ([]core.In[Input], bool) {
 	for _, c := range Corpus() {
 		ins = append(ins, core.In[Input]{Input: c, Stream: "corpus"})
 	}
+	for _, c := range operatorCorpus() {
+		ins = append(ins, core.In[Input]{Input: c, Stream: "corpus"})
+	}
 	g := &gen{r: r}
 	nRandom, maxLen := 500, 20
+	nOperator := 160
 	switch tier {
 	case "thorough":
 		nRandom, maxLen = 20000, 30
+		nOperator = 2000
 	case "search":
 		nRandom = 3000
+		nOperator = 1000
 	}
+	// the operator class has a generator of its own; its cases are spread over the list (the
+	// driver gives each worker a contiguous slice)
+	gop := &gen{r: r.Fork()}
+	opEvery := nRandom / nOperator
+	if opEvery < 1 {
+		opEvery = 1
+	}
+	opDone := 0
 	for i := 0; i < nRandom; i++ {
+		if i%opEvery == 0 && opDone < nOperator {
+			opDone++
+			ins = append(ins, core.In[Input]{Input: gop.operatorCase(maxLen), Stream: "operator"})
+		}
 		if i%10 == 9 {
 			ins = append(ins, core.In[Input]{Input: g.history(maxLen, true), Stream: "malformed"})
 		} else if i%5 == 2 {
 			ins = append(ins, core.In[Input]{Input: g.coinciding(maxLen), Stream: "coinciding"})
 		} else {
 			ins = append(ins, core.In[Input]{Input: g.history(maxLen, false), Stream: "random"})
+		}
+	}
+	for ; opDone < nOperator; opDone++ {
+		ins = append(ins, core.In[Input]{Input: gop.operatorCase(maxLen), Stream: "operator"})
+	}
+	if tier == "thorough" {
+		for _, in := range exhaustiveOperator(5) {
+			ins = append(ins, core.In[Input]{Input: in, Stream: "exhaustive-operator"})
+		}
+	}
+	if tier == "search" {
+		for _, in := range exhaustiveOperator(4) {
+			ins = append(ins, core.In[Input]{Input: in, Stream: "exhaustive-operator"})
 		}
 	}
 	if tier == "thorough" {
@@ -1211,11 +1366,43 @@ func Gen(r *core.Rng, tier string) ([]core.In[Input], bool) {
 			ins = append(ins, core.In[Input]{Input: in, Stream: "exhaustive-coinciding"})
 		}
 	}
-	return ins, false
+	return spreadOperator(ins), false
+}
+
+// spreadOperator: the cases of the operator class cost ~15 ms each (hook files are executed,
+// an operator is assembled), the others well under 1 ms, and the driver gives each worker a
+// contiguous slice of the list: the operator cases generated after the corpus are spread
+// evenly over the list (the order within each of the two groups is kept)
+func spreadOperator(ins []core.In[Input]) []core.In[Input] {
+	var head, slow, fast []core.In[Input]
+	for _, in := range ins {
+		switch {
+		case in.Stream == "corpus":
+			head = append(head, in)
+		case in.Input.Via == "operator":
+			slow = append(slow, in)
+		default:
+			fast = append(fast, in)
+		}
+	}
+	out := head
+	n := len(slow) + len(fast)
+	si, fi := 0, 0
+	for k := 0; k < n; k++ {
+		// the k-th place goes to a slow case when the slow ones are behind their share
+		if si < len(slow) && (fi >= len(fast) || si*n <= k*len(slow)) {
+			out = append(out, slow[si])
+			si++
+		} else {
+			out = append(out, fast[fi])
+			fi++
+		}
+	}
+	return out
 }
 
 var Driver = core.Driver[Input, Observation]{
-	Spec: core.Spec{Property: "C11", Imports: []string{"C11_Model", "C11_Spec", "C11_Corr"}, Corr: "C11_Corr", Triggers: nil, ShrinkKey: "ops",
+	Spec: core.Spec{Property: "C11", Imports: []string{"C11_Model", "C11_Spec", "C11_Hm", "C11_HmSpec", "C11_Corr"}, Corr: "C11_Corr", Triggers: nil, ShrinkKey: "ops",
 		Rule: "1-3 hooks (0-3 schedule bindings each: crontab STRING, uuid-like id, name, group, allowFailure, snapshots, queue) (binding names repeat within a hook in 30% of the draws) with real ScheduleBindingsControllers sharing one real scheduleManager; " +
 			"every case has its own table of 3-5 crontab strings drawn from 5 schedules x 4-6 spellings (single-spaced, double spaces, tabs, leading/trailing blanks, other text for the same schedule, letter case); 45% of the cases contain at least two spellings of one schedule (tags spelling:*); parsability is asked of the real cron.Parse; " +
 			"operations Add/Remove of (crontab,id) over the table x 4 ids directly on the manager, Enable/Disable of a hook's bindings, Fire of a string (CanHandleEvent/HandleEvent of every controller), " +
@@ -1223,12 +1410,16 @@ var Driver = core.Driver[Input, Observation]{
 			"after each operation: Entries, the cron entries registered and the string each sends when its job is run (strings not in the table are appended to it); the scheduler is never started; " +
 			"streams: corpus, random (length <=20, quick; 8% Start, 6% Drain, 1% Stop), coinciding (every fifth case: hooks enabled, 1-3 rounds of Start of >=2 jobs / operations meanwhile in 35% / Drain, TickAll, Tick or nothing; tags concurrent:*, stop:*), malformed (1-2 unparsable strings, some unparsable only because of whitespace such as '@hourly '; binding ids shared with the direct calls or duplicated), " +
 			"exhaustive (thorough: every sequence of <=5 operations over 10 operations on 2 spellings of one schedule x 2 ids and one hook); " +
+			"operator (case class COp, tags class:operator, operator:*): the REAL operator assembled around a fake cluster - 2-4 hook files (1-2 schedule bindings each, 65% of the bindings on one of two shared strings, now and then a hook without schedule bindings) loaded by the real hook.Manager.Init, " +
+			"Enable h = the EnableScheduleBindings task the real bootstrapMainQueue queued for hook h handled by the operator's real task handler, Disable h = HookController.DisableScheduleBindings, every string received from the schedule channel or handed over (Fire) given to the schedule event handler the operator registered (operator.go:163-191 -> hook.Manager.HandleScheduleEvent), the returned TASKS observed; " +
+			"histories: the hooks enabled in queue order with firings (Tick / TickAll / Fire) in between with probability 55% each, then disable / enable / raw Add, Remove (also of a binding's own pair) / Start+Drain / firings; " +
+			"exhaustive-operator (thorough: every sequence of <=5 operations over Enable 0,1,2 / Disable 0,1 / Tick 0 / TickAll on three hooks, two of them sharing a crontab, the second sharing its other crontab with the third); " +
 			"non-trivial = >=3 operations of >=2 kinds with a cron entry registered at some point; distinct = distinct input text"},
-	Gen: Gen, Run: Run, Render: Render, PerShard: 1000, Workers: 8, CaseTimout: 10 * time.Second,
+	Gen: Gen, Run: Run, Render: Render, PerShard: 200, Workers: 8, CaseTimout: 10 * time.Second,
 	Extra: func() map[string]any {
 		return map[string]any{
-			"exhaustive_scope": "thorough: sum_{k=1..5} 10^k = 111110 operation sequences",
-			"not_driven":       "the cron library's clock and its `go e.Job.Run()` (entries are fired by running their real job closure directly, alone or several together in goroutines started by the harness), the events handler's receive loop (the harness is the consumer of Ch()), hook.Manager.HandleScheduleEvent itself (its loop - CanHandleEvent then HandleEvent per hook - is replayed by the driver on the real controllers) and the task construction in operator.go:163-191 (modelled as task_of_info, not executed)",
+			"exhaustive_scope": "thorough: sum_{k=1..5} 10^k = 111110 operation sequences (controllers), sum_{k=1..5} 7^k = 19607 (operator)",
+			"not_driven":       "the cron library's clock and its `go e.Job.Run()` (entries are fired by running their real job closure directly, alone or several together in goroutines started by the harness), the events handler's receive loop (the harness is the consumer of Ch()), class CCtl replays hook.Manager.HandleScheduleEvent's loop on the real controllers; class COp (operator) calls the schedule event handler the operator registered with its ManagerEventsHandler (read by reflection: unexported field scheduleCb), which runs the real hook.Manager.HandleScheduleEvent and the task construction of operator.go:163-191; the queues the tasks would be appended to are not driven (the queue name carried by each task is compared)",
 		}
 	},
 }
